@@ -157,6 +157,13 @@ class Oracle(object):
     def may_write_fields(self, name):
         return self.writes_fields.get(name, True if name not in self.mod.funcs and name not in self.mod.decls else False)
 
+    def pure_result(self, name, args):
+        """Value-numbering of calls whose result is a pure function of their receiver:
+        allocator max_size () (assumption: it does not change between calls on one allocator)."""
+        if self.kind.get(name) == 'ALLOC_MAX' and args:
+            return ('max_size', args[0][2])
+        return None
+
     def is_gch(self, name):
         f = self.mod.funcs.get(name)
         return bool(f and f.src_file and f.src_file.endswith('gch/small_vector.hpp'))
